@@ -740,6 +740,7 @@ func c20MinMax(c *Ctx, rule string, fi *FuncInfo, ps []*Path, less bool) {
 	// exits: returns the accumulator after the loop; the single-argument and no-argument rows
 	okRows := true
 	msg := ""
+	var pair []*Path
 	for _, p := range ps {
 		if p.End == EndLoopBack {
 			continue
@@ -762,8 +763,56 @@ func c20MinMax(c *Ctx, rule string, fi *FuncInfo, ps []*Path, less bool) {
 		switch {
 		case p.End == EndPanic && lenEq == 0:
 		case p.End == EndReturn && lenEq == 1 && len(p.Rets) == 1 && isElemOf(p.Rets[0], v, intConst(0)):
+		case p.End == EndReturn && lenEq == 2 && len(p.Rets) == 1:
+			pair = append(pair, p) // the two-argument case written out: decided below as a table over the orderings
 		default:
 			okRows, msg = false, "unexpected row before the loop: "+p.CondString()
+		}
+	}
+	if len(pair) > 0 && okRows {
+		// find the two elements as they are spelled in the conditions and results
+		var e0, e1 *Term
+		var find func(t *Term)
+		find = func(t *Term) {
+			if t == nil {
+				return
+			}
+			if isElemOf(t, v, intConst(0)) {
+				e0 = t
+			} else if isElemOf(t, v, intConst(1)) {
+				e1 = t
+			}
+			for _, a := range t.Args {
+				find(a)
+			}
+		}
+		for _, p := range pair {
+			for _, cd := range p.Conds {
+				find(cd.T)
+			}
+			find(p.Rets[0])
+		}
+		if e0 == nil || e1 == nil {
+			okRows, msg = false, "the two-argument rows do not compare v[0] with v[1]"
+		} else {
+			for _, ranks := range weakOrderings(2) {
+				o := Ordering{e0.Key(): ranks[0], e1.Key(): ranks[1]}
+				sel, u := feasible(pair, o, func(cd Cond) bool { return !cd.T.ContainsKey(e0.Key()) && !cd.T.ContainsKey(e1.Key()) })
+				if u != "" || len(sel) != 1 {
+					okRows, msg = false, "two-argument rows: cannot decide "+orderingString([]string{"v[0]", "v[1]"}, ranks)+" "+u
+					break
+				}
+				got := sel[0].Rets[0]
+				// the loop keeps the earlier argument on ties: so must the table
+				want := e0
+				if less && ranks[1] < ranks[0] || !less && ranks[1] > ranks[0] {
+					want = e1
+				}
+				if got.Key() != want.Key() {
+					okRows, msg = false, "two-argument rows: for "+orderingString([]string{"v[0]", "v[1]"}, ranks)+" the result is "+got.String()
+					break
+				}
+			}
 		}
 	}
 	if okRows {
